@@ -94,11 +94,28 @@ def run(chk, facts, tier, only=None, floor=60):
                            where=f"{b.span['file']}:{ln}", ok_detail="discharged by abstract interpretation")
         chk.floor("kernel obligations", n, floor)
 
+    def with_helpers(crate, b):
+        """the kernel and the functions of the same file it calls directly (a loop factored out of a kernel stays under the rule)"""
+        cc = facts.crate(crate)
+        kernel_keys = {cc.body(rx).key for cr, rx in KS if cr == crate}
+        out, seen = [b], {b.key}
+        for bi, t, cal in b.call_sites():
+            d, r = term_callee(t)
+            for k in (r, d):
+                if k and k in cc.bodies and k not in seen and k not in kernel_keys and cc.bodies[k].span["file"] == b.span["file"]:
+                    seen.add(k)
+                    out.append(cc.bodies[k])
+        return out
+
     def r2():
         # an unterminated string is an error: every read_exact result is propagated with `?`
         n = 0
+        counted = set()
         for crate, rx in KS:
-            b = facts.crate(crate).body(rx)
+          for b in with_helpers(crate, facts.crate(crate).body(rx)):
+            if b.key in counted:
+                continue
+            counted.add(b.key)
             for cb in b.with_closures():
                 for bi, t, cal in cb.call_sites():
                     if cal and re.search(r"io::Read::(bytes|read|read_to_end|read_to_string|take|chain|read_buf|read_vectored)$", cal) and not cb.is_cleanup(bi):
@@ -117,7 +134,15 @@ def run(chk, facts, tier, only=None, floor=60):
                     chk.expect(ok, f"{fn_suffix(b.key)}:read_exact-propagated",
                                f"{b.key}: the result of read_exact must be propagated with `?` (a truncated number is an error)",
                                where=f"{b.span['file']}:{t.get('ln')}")
-        chk.floor("read_exact sites in the kernels", n, 8 if floor >= 60 else 4)
+        # presence per reading kernel rather than a total (merging two drain loops into one helper is not an event)
+        for crate, rx in KS:
+            b = facts.crate(crate).body(rx)
+            if not re.search(r"(leb128::decode_(nat|int)|number::(Nat|Int)::decode)$", b.key):
+                continue
+            has = any(cal and cal.endswith("io::Read::read_exact") for bb in with_helpers(crate, b) for _bi, _t, cal in bb.call_sites())
+            chk.expect(has, f"{fn_suffix(b.key)}:reads-with-read_exact",
+                       f"{b.key} (or a helper it calls) must read its input with read_exact, the only reader that turns a short input into an error")
+        chk.floor("read_exact sites in the kernels", n, 4)
 
     def r3():
         n = 0
